@@ -74,6 +74,17 @@ def run(ctx):
                                 ["-p", "pkg", "--resolve-extension", ext, "--schema-root-type", "http://x/main=Main", "--schema-output", "http://x/main=-"] + yext + ["in/main" + ext]))
                 meta.append((si, "multi %s legacy=%s" % (ext, legacy)))
         schemas.append(main)
+    # the root type name derived from the file name: JSON and YAML files of one base name, with the extension list given dotted and dot-less, no root-type mapping
+    for oi, sc in enumerate(list(SPECIAL[:2]) + schemas[len(SPECIAL):len(SPECIAL) + 4]):
+        si = len(schemas)
+        sc = {k: v for k, v in sc.items() if k not in ("$id", "id")}
+        for ext, render in (("json", json.dumps), ("yaml", lambda d: to_yaml(d) + "\n")):
+            for dotted in (True, False):
+                exts = [("." if dotted else "") + e for e in ("json", "yaml")]
+                argv = ["-p", "pkg", "--resolve-extension", exts[0], "--resolve-extension", exts[1], "--yaml-extension", ".yaml", "in/order." + ext]
+                runs.append(Run("fn%d_%s_%d" % (oi, ext, dotted), {"in/order." + ext: render(sc)}, argv))
+                meta.append((si, "file-name %s %s" % (ext, "dotted" if dotted else "dot-less")))
+        schemas.append(sc)
     run_all(ctx, runs)
     by = {}
     for r, (si, vn) in zip(runs, meta):
@@ -83,7 +94,7 @@ def run(ctx):
         ctx.cov["programs"] += 1
         groups = {"plain": {}, "mapped": {}}
         for vn, r in lst:
-            ctx.count({"s": schemas[si], "v": vn}, True, "respelling/" + ("special" if si < len(SPECIAL) else ("multi-file" if vn.startswith("multi") else "random")))
+            ctx.count({"s": schemas[si], "v": vn}, True, "respelling/" + ("special" if si < len(SPECIAL) else ("multi-file" if vn.startswith("multi") else ("file-name" if vn.startswith("file-name") else "random"))))
             grp = "mapped" if (vn.startswith("yaml") or vn == "json-mapped") else "plain"
             if vn.startswith("multi") and r.status != 0 and nv < 6:
                 ctx.violation("oracle", {"kind": "respelling", "files": {k: v for k, v in r.files.items()}, "argv": r.argv, "stderr": r.stderr.decode("utf-8", "replace")[:300]},
@@ -102,7 +113,7 @@ def run(ctx):
     ctx.cov["rule"] = ("3 special schemas (all re-spellable keywords at once; numeric / boolean / null-looking property names; enum and default strings that look like YAML "
                        "scalars) + random in-guard schemas; each in 2^5 JSON re-spellings (id/$id, definitions/$defs with matching $ref prefix, type string/list, true/{}, "
                        "dependencies/dependentSchemas; every third one in the quick tier) and as YAML in block and flow style with .yaml/.yml extension in current and legacy "
-                       "spelling; stdout compared byte for byte; non-trivial = every run; distinct by hash of (schema, spelling)")
+                       "spelling; JSON and YAML files of one base name with dotted and dot-less --resolve-extension lists and no root-type mapping; stdout compared byte for byte; non-trivial = every run; distinct by hash of (schema, spelling)")
     ctx.sample({"family": "respelling", "schema": schemas[0], "spellings": [m[1] for m in meta[:4]], "sha": sha(runs[0].stdout)})
 
 
